@@ -56,6 +56,7 @@ CONSTANTS MainIns,     \* subset of {"init", "sub"}: where the program lives
           ModDocs,     \* docstring shapes of the main module
           Vals,        \* subset of {"lit","none"}
           Imports,     \* subset of {"OK","og","ov","other","ext","cp"}
+          Levels,      \* subset of 1..3: number of leading dots of the relative imports
           AsNames,     \* subset of Names \cup {"-"}   ("-" = no `as` clause)
           AllowInst,   \* `def __init__(self): self.q = 1` allowed in classes
           AllowRebind, \* FALSE: forbid statements that change what a base-class name resolves to afterwards
@@ -64,8 +65,15 @@ CONSTANTS MainIns,     \* subset of {"init", "sub"}: where the program lives
 \* ------------------------------------------------------------------------------------------
 \* fixed universe
 \* ------------------------------------------------------------------------------------------
-NoneId == 1   LitId == 2   PkgId == 3   SubId == 4   OtherId == 5   OKId == 6   OgId == 7
-ExtId == 8    CpId == 9    FirstFree == 10
+\* the package on disk:  pkg/{__init__, sub, other}.py  pkg/mid/{__init__, other}.py  pkg/mid/deep/{__init__, leaf, other}.py
+\* every other.py defines class OK, def og(u), ov = 3; the main module is one of __init__ (3 depths), sub, leaf
+NoneId == 1   LitId == 2   PkgId == 3   SubId == 4   MidId == 5   DeepId == 6   LeafId == 7
+ExtId == 8    CpId == 9
+OtherId(d) == 9 + d     \* module other of the package at depth d (1: pkg, 2: pkg.mid, 3: pkg.mid.deep)
+OKId(d) == 12 + d       OgId(d) == 15 + d
+FirstFree == 19
+PkgPath(d) == SubSeq(<<"pkg", "mid", "deep">>, 1, d)
+PkgModId(d) == CASE d = 1 -> PkgId [] d = 2 -> MidId [] d = 3 -> DeepId
 
 Front(s) == SubSeq(s, 1, Len(s) - 1)
 Last(s) == s[Len(s)]
@@ -144,20 +152,14 @@ DynParams(ps) == [i \in 1..Len(ps) |-> PP(ps[i].name, KindMap(ps[i].kind), ~ps[i
 \* CPython: a parameter must be supplied iff it has no default and is not variadic
 PyParams(ps) == [i \in 1..Len(ps) |-> PP(ps[i].name, ps[i].kind, ~ps[i].dflt /\ ~Variadic(ps[i].kind))]
 
-\* ---- import targets ----------------------------------------------------------------------------
-FromTarget(w) ==
-  CASE w = "OK" -> <<"pkg", "other", "OK">> [] w = "og" -> <<"pkg", "other", "og">>
-    [] w = "ov" -> <<"pkg", "other", "ov">> [] w = "other" -> <<"pkg", "other">>
-    [] w = "ext" -> <<"io", "StringIO">>    [] w = "cp" -> <<"functools", "cached_property">>
+\* ---- import targets (the relative ones depend on where the main module is: see below) ----------
 FromName(w) == CASE w = "ext" -> "StringIO" [] w = "cp" -> "cached_property" [] OTHER -> w
-FromId(w) == CASE w = "OK" -> OKId [] w = "og" -> OgId [] w = "ov" -> LitId [] w = "other" -> OtherId
-               [] w = "ext" -> ExtId [] w = "cp" -> CpId
 \* what the loaded package contains outside the main module (for final targets of aliases)
-Outside == [p \in {<<"pkg">>, <<"pkg", "other">>, <<"pkg", "other", "OK">>, <<"pkg", "other", "og">>,
-                   <<"pkg", "other", "ov">>} |->
-              CASE p = <<"pkg">> -> "module" [] p = <<"pkg", "other">> -> "module"
-                [] p = <<"pkg", "other", "OK">> -> "class" [] p = <<"pkg", "other", "og">> -> "function"
-                [] OTHER -> "attribute"]
+OutsidePaths == {PkgPath(d) : d \in 1..3} \cup {PkgPath(d) \o <<"other">> : d \in 1..3}
+                  \cup {PkgPath(d) \o <<"other", x>> : d \in 1..3, x \in {"OK", "og", "ov"}}
+Outside == [p \in OutsidePaths |->
+              IF p[Len(p)] = "OK" THEN "class" ELSE IF p[Len(p)] = "og" THEN "function"
+              ELSE IF p[Len(p)] = "ov" THEN "attribute" ELSE "module"]
 
 VARIABLES main, mdoc, prog, nst,      \* the case: where the program lives, module docstring, tokens, statement count
           st,                         \* static tree: [relative path -> static node]  (visitor state; `current` = Scope)
@@ -165,8 +167,24 @@ VARIABLES main, mdoc, prog, nst,      \* the case: where the program lives, modu
           pc, dy, skS, skD, diffs, xdump
 vars == <<main, mdoc, prog, nst, st, heap, nid, frames, pc, dy, skS, skD, diffs, xdump>>
 
-MainPath == IF main = "init" THEN <<"pkg">> ELSE <<"pkg", "sub">>
-MainId == IF main = "init" THEN PkgId ELSE SubId
+MainPath == CASE main = "init" -> <<"pkg">> [] main = "sub" -> <<"pkg", "sub">> [] main = "mid" -> <<"pkg", "mid">>
+              [] main = "deep" -> <<"pkg", "mid", "deep">> [] main = "leaf" -> <<"pkg", "mid", "deep", "leaf">>
+MainId == CASE main = "init" -> PkgId [] main = "sub" -> SubId [] main = "mid" -> MidId [] main = "deep" -> DeepId
+            [] main = "leaf" -> LeafId
+IsInit == main \in {"init", "mid", "deep"}                     \* Module.is_init_module
+MainPkg == IF IsInit THEN MainPath ELSE Front(MainPath)        \* CPython: __package__ of the main module
+\* CPython: `from <lvl dots>[other] import ...` starts at __package__ and climbs lvl - 1 packages
+RtDepth(lvl) == Len(MainPkg) - (lvl - 1)
+FromId(w, lvl) == CASE w = "OK" -> OKId(RtDepth(lvl)) [] w = "og" -> OgId(RtDepth(lvl)) [] w = "ov" -> LitId
+                    [] w = "other" -> OtherId(RtDepth(lvl)) [] w = "ext" -> ExtId [] w = "cp" -> CpId
+\* visitor: nodes.imports.relative_to_absolute - one level is discounted in a package / subpackage __init__, then
+\* the module's parents are climbed (stopping at the top), then node.module and the name are appended
+Climb(path, n) == SubSeq(path, 1, IF Len(path) - n < 1 THEN 1 ELSE Len(path) - n)
+RelBase(lvl) == Climb(MainPath, IF IsInit THEN lvl - 1 ELSE lvl)
+FromTarget(w, lvl) ==
+  CASE w = "other" -> RelBase(lvl) \o <<"other">>
+    [] w = "ext" -> <<"io", "StringIO">>    [] w = "cp" -> <<"functools", "cached_property">>
+    [] OTHER -> RelBase(lvl) \o <<"other", w>>
 Scope == [i \in 1..Len(frames) |-> frames[i].name]      \* Visitor.current / Inspector.current as a relative path
 InClass == frames # <<>>
 \* ghost: which binding the lookup of name n finds right now: <<scope it lives in, index in prog of the binding statement>>
@@ -176,7 +194,7 @@ RtBinder(n) ==
 
 Tok(t, n, deco, asy, sig, doc, val, what, as, base, inst) ==
   [t |-> t, n |-> n, deco |-> deco, async |-> asy, sig |-> sig, doc |-> doc, val |-> val, what |-> what,
-   as |-> as, base |-> base, inst |-> inst]
+   as |-> as, base |-> base, inst |-> inst, lvl |-> 0]
 
 \* ------------------------------------------------------------------------------------------
 \* static tree (Griffe objects built by the visitor)
@@ -250,9 +268,9 @@ VisitAttr(t, k) ==
 \* Visitor.visit_importfrom
 VisitFrom(t, k) ==
   LET name == IF k.as = "-" THEN FromName(k.what) ELSE k.as
-  IN IF k.what = "other" /\ k.as = "-" /\ ~InClass /\ main = "init"
+  IN IF k.what = "other" /\ k.lvl = 1 /\ k.as = "-" /\ ~InClass /\ IsInit
      THEN t          \* `from . import other` at module level of an __init__ module: skipped (self.current.is_module)
-     ELSE SetMember(t, Scope \o <<name>>, SNode("alias", <<>>, "-", <<>>, FromTarget(k.what), {}, "from", "-", "none"))
+     ELSE SetMember(t, Scope \o <<name>>, SNode("alias", <<>>, "-", <<>>, FromTarget(k.what, k.lvl), {}, "from", k.val, "none"))
 
 \* Visitor.visit_import for `import pkg.other [as x]`: without asname alias_path = alias_name = "pkg" (first component),
 \* with asname the alias x points at the full dotted path
@@ -274,11 +292,18 @@ InitHeap(m, md) ==
   [i \in 1..(FirstFree - 1) |->
      CASE i = NoneId -> Value("none")
        [] i = LitId -> Value("value")
-       [] i = PkgId -> [ModuleObj(<<"pkg">>, [x \in {"__name__"} |-> LitId]) EXCEPT !.doc = IF m = "init" THEN DocLines(md) ELSE <<>>]
-       [] i = SubId -> [ModuleObj(<<"pkg", "sub">>, [x \in {"__name__"} |-> LitId]) EXCEPT !.doc = IF m = "sub" THEN DocLines(md) ELSE <<>>]
-       [] i = OtherId -> ModuleObj(<<"pkg", "other">>, [x \in {"OK", "og", "ov"} |-> CASE x = "OK" -> OKId [] x = "og" -> OgId [] OTHER -> LitId])
-       [] i = OKId -> Obj("class", "none", <<"pkg", "other">>, <<"OK">>, <<>>, <<>>, <<>>, [x \in {"__module__"} |-> LitId])
-       [] i = OgId -> Obj("function", "none", <<"pkg", "other">>, <<"og">>, <<>>, <<>>, <<PS("u", "positional or keyword", FALSE)>>, <<>>)
+       [] i \in {PkgId, SubId, MidId, DeepId, LeafId} ->
+            LET path == CASE i = PkgId -> <<"pkg">> [] i = SubId -> <<"pkg", "sub">> [] i = MidId -> <<"pkg", "mid">>
+                          [] i = DeepId -> <<"pkg", "mid", "deep">> [] i = LeafId -> <<"pkg", "mid", "deep", "leaf">>
+                mine == CASE m = "init" -> PkgId [] m = "sub" -> SubId [] m = "mid" -> MidId [] m = "deep" -> DeepId [] m = "leaf" -> LeafId
+            IN [ModuleObj(path, [x \in {"__name__"} |-> LitId]) EXCEPT !.doc = IF i = mine THEN DocLines(md) ELSE <<>>]
+       [] i \in {OtherId(d) : d \in 1..3} ->
+            LET d == i - 9 IN ModuleObj(PkgPath(d) \o <<"other">>,
+                                        [x \in {"OK", "og", "ov"} |-> CASE x = "OK" -> OKId(d) [] x = "og" -> OgId(d) [] OTHER -> LitId])
+       [] i \in {OKId(d) : d \in 1..3} ->
+            Obj("class", "none", PkgPath(i - 12) \o <<"other">>, <<"OK">>, <<>>, <<>>, <<>>, [x \in {"__module__"} |-> LitId])
+       [] i \in {OgId(d) : d \in 1..3} ->
+            Obj("function", "none", PkgPath(i - 15) \o <<"other">>, <<"og">>, <<>>, <<>>, <<PS("u", "positional or keyword", FALSE)>>, <<>>)
        [] i = ExtId -> Obj("class", "none", <<"_io">>, <<"StringIO">>, <<>>, <<>>, <<>>, <<>>)
        [] i = CpId -> Obj("class", "none", <<"functools">>, <<"cached_property">>, <<>>, <<>>, <<>>, <<>>)]
 
@@ -294,7 +319,10 @@ BindIn(h, fr, n, i, idx) ==
   THEN <<h, [fr EXCEPT ![Len(fr)].vars = Bind(@, n, i), ![Len(fr)].at = Bind(@, n, idx)]>>
   ELSE <<[h EXCEPT ![MainId].vars = Bind(@, n, i), ![MainId].at = Bind(@, n, idx)], fr>>
 \* importing pkg.other (whoever does it) makes `other` an attribute of the package module
-WithSubmoduleAttr(h) == [h EXCEPT ![PkgId].vars = Bind(@, "other", OtherId)]
+\* (only the first import of the submodule does that: afterwards it is found in sys.modules; ghost flag in the module's `at`)
+WithSubmoduleAttr(h, d) ==
+  IF "imported" \in DOMAIN h[OtherId(d)].at THEN h
+  ELSE [h EXCEPT ![PkgModId(d)].vars = Bind(@, "other", OtherId(d)), ![OtherId(d)].at = Bind(@, "imported", 1)]
 Alloc(h, o) == [i \in 1..(Len(h) + 1) |-> IF i <= Len(h) THEN h[i] ELSE o]
 
 \* ------------------------------------------------------------------------------------------
@@ -368,13 +396,23 @@ StmtAnnOnly ==
 
 StmtFrom ==
   /\ Budget /\ "from" \in Stmts
-  /\ \E w \in Imports, as \in AsNames :
-       LET k == Tok("from", "-", "-", FALSE, "-", "-", "-", w, as, "-", FALSE)
-           name == IF as = "-" THEN FromName(w) ELSE as
-           h1 == IF w \in {"OK", "og", "ov", "other"} THEN WithSubmoduleAttr(heap) ELSE heap
-           b == BindIn(h1, frames, name, FromId(w), Len(prog) + 1)
-       IN /\ RebindOk(VisitFrom(st, k))
-          /\ st' = VisitFrom(st, k) /\ heap' = b[1] /\ frames' = b[2] /\ Push(k)
+  /\ \E w \in Imports, as \in AsNames, lvl \in Levels :
+       /\ lvl <= Len(MainPkg)                  \* executable: no relative import beyond the top-level package
+       /\ (w \in {"ext", "cp"}) => lvl = 1     \* absolute imports carry no dots (lvl is then unused)
+       /\ LET relative == w \in {"OK", "og", "ov", "other"}
+              \* `from <package> import other`: CPython's _handle_fromlist takes an existing attribute `other` of the package
+              \* module (e.g. a global the running __init__ bound before) and imports the submodule only when there is none
+              pm == PkgModId(RtDepth(lvl))
+              hasAttr == w = "other" /\ (IF w = "other" THEN "other" \in DOMAIN heap[pm].vars ELSE FALSE)
+              shadow == hasAttr /\ (IF hasAttr THEN heap[pm].vars["other"] # OtherId(RtDepth(lvl)) ELSE FALSE)
+              k == [Tok("from", "-", "-", FALSE, "-", "-", IF shadow THEN "attr-shadow" ELSE "-", w, as, "-", FALSE)
+                      EXCEPT !.lvl = IF relative THEN lvl ELSE 0]
+              name == IF as = "-" THEN FromName(w) ELSE as
+              h1 == IF relative /\ ~hasAttr THEN WithSubmoduleAttr(heap, RtDepth(lvl)) ELSE heap
+              b == BindIn(h1, frames, name, IF hasAttr THEN heap[pm].vars["other"] ELSE FromId(w, lvl), Len(prog) + 1)
+          IN /\ AllowRebind \/ ~shadow
+             /\ RebindOk(VisitFrom(st, k))
+             /\ st' = VisitFrom(st, k) /\ heap' = b[1] /\ frames' = b[2] /\ Push(k)
   /\ UNCHANGED nid /\ Same
 
 StmtImport ==
@@ -382,8 +420,8 @@ StmtImport ==
   /\ \E as \in AsNames :
        LET k == Tok("import", "-", "-", FALSE, "-", "-", "-", "-", as, "-", FALSE)
            \* `import pkg.other` binds the top package, `import pkg.other as x` binds the submodule itself
-           b == IF as = "-" THEN BindIn(WithSubmoduleAttr(heap), frames, "pkg", PkgId, Len(prog) + 1)
-                ELSE BindIn(WithSubmoduleAttr(heap), frames, as, OtherId, Len(prog) + 1)
+           b == IF as = "-" THEN BindIn(WithSubmoduleAttr(heap, 1), frames, "pkg", PkgId, Len(prog) + 1)
+                ELSE BindIn(WithSubmoduleAttr(heap, 1), frames, as, OtherId(1), Len(prog) + 1)
        IN /\ RebindOk(VisitImport(st, k))
           /\ st' = VisitImport(st, k) /\ heap' = b[1] /\ frames' = b[2] /\ Push(k)
   /\ UNCHANGED nid /\ Same
@@ -498,7 +536,7 @@ InspScope(o, ids, rel, fuel) ==
 
 \* Inspector.get_module: ancestors of a submodule are placeholder nodes ObjectNode(None, part)
 \* ObjectNode._ids: a node whose obj is None (placeholder) contributes no id
-RootIds == IF main = "init" THEN {PkgId} ELSE {SubId} \cup {}
+RootIds == {MainId} \cup {}
 InspectMain ==
   LET S == InspScope(MainId, RootIds, <<>>, 3)
   IN [p \in {x[1] : x \in S} |-> (CHOOSE x \in S : x[1] = p)[2]]
@@ -519,7 +557,10 @@ SkelOf(kind, params, bases, doc, target, labels) ==
     [] kind = "class" -> SK("class", <<>>, bases, doc, <<>>, "-")
     [] OTHER -> SK("attribute", <<>>, <<>>, <<>>, <<>>, "-")   \* attribute docstrings (properties are attributes): exempt
 
-Exempt(p) == Last(p) \in InterpDunders
+\* GriffeLoader._load_submodules (both agents): after the package __init__ was visited / inspected, every submodule found
+\* on disk is set as member under its name - whatever the __init__ bound to that name is replaced by the module
+LoaderReplaces(p) == IsInit /\ p[1] = "other"
+Exempt(p) == Last(p) \in InterpDunders \/ LoaderReplaces(p)
 SkelStatic(t) ==
   LET keep == {p \in DOMAIN t : ~Exempt(p) /\ t[p].origin # "inst"}        \* instance attributes assigned in __init__: exempt
   IN [p \in keep \cup {<<>>} |->
@@ -551,6 +592,7 @@ Cause(t, d, p, clause) ==
   IN IF o = "annonly" /\ clause \in {"members", "kind"} THEN "annonly"
      ELSE IF o = "ref" /\ clause = "kind" THEN "ref"
      ELSE IF clause = "members" /\ o = "import" /\ ~hasD /\ main = "init" THEN "import-self"
+     ELSE IF clause \in {"target", "kind"} /\ o = "from" /\ t[p].val = "attr-shadow" THEN "from-package-attribute"
      ELSE IF clause = "bases" /\ hasS /\ Bvia(t, p) = "annonly" THEN "annonly"
      ELSE IF clause = "bases" /\ hasS /\ Rebound(t, p) THEN "base-rebound"
      ELSE IF clause = "bases" /\ hasS /\ Bvia(t, p) = "ref" THEN "ref"
@@ -601,6 +643,7 @@ DiffsExplained == Done => \A x \in diffs : x.cause # "none"
 DiffsComplete == Done => ((diffs = {}) <=> (skS = skD))
 \* one invariant per recorded root cause: TLC's counterexample is the defect's witness program
 NoAnnOnly == Done => \A x \in diffs : x.cause # "annonly"
+NoFromPackageAttribute == Done => \A x \in diffs : x.cause # "from-package-attribute"
 NoImportSelf == Done => \A x \in diffs : x.cause # "import-self"
 NoBaseRebound == Done => \A x \in diffs : x.cause # "base-rebound"
 NoRef == Done => \A x \in diffs : x.cause # "ref"
